@@ -71,6 +71,7 @@ Definition parse_base (toks : list tk) : dres (ty * list tk) :=
       if is T_NAME t || is T_void t then
         let '(c', v', r'') := base_cv c v r' in
         DOk (TBase (if is T_void t then 0 else kval t) c' v', r'')
+      else if memN (kty t) pqname_start_tokens then DErr 4     (* fundamental, qualified, elaborated ... names: outside the model *)
       else DErr 1
   | [] => DErr 2
   end.
